@@ -162,9 +162,17 @@ def r3(ctx):
         if f:
             e = eb.operand(f[0].args[1])
             detail = repr(e)
+            cands = []
             for cb in F.closures_of(o):
                 ce = ExprBuilder(cb).place(0, ())
                 detail += ' / closure: %r' % ce
+                cands.append(ce)
+            # loop form: the candidates are pushed one by one
+            for c_ in o.find_calls('std::vec::Vec::push'):
+                pe = eb.arg(c_, 1)
+                detail += ' / pushed: %r' % pe
+                cands.append(pe)
+            for ce in cands:
                 if ce.has_call('cloned', 'clone') and ce.has_call('get_store') and ce.has_call('get'):
                     gs = ce.calls('get_store')[0]
                     g = [x for x in ce.calls('get') if 'HashMap' in x.name]
